@@ -322,3 +322,38 @@ Proof.
   apply lenpres_b_sound in Hl. rewrite Forall_forall in *. rewrite forallb_forall in Hf.
   intros e He. split; [now apply Hl|]. apply c03_case_Forall2. now apply Hf.
 Qed.
+
+(* ---------------- C07: the changed-lines computation ---------------- *)
+Lemma diff_lines_nil a : forall b n, diff_lines a b n = [] -> a = b.
+Proof.
+  induction a as [|x a IH]; intros [|y b] n H; cbn in H; try discriminate; [reflexivity|].
+  destruct (str_eqb x y) eqn:E; [|discriminate]. apply str_eqb_eq in E. subst. f_equal. now apply (IH b (S n)).
+Qed.
+Lemma diff_lines_sound a : forall b n k, length a = length b -> In k (diff_lines a b n) ->
+  n <= k < n + length a /\ nth (k - n) a [] <> nth (k - n) b [].
+Proof.
+  induction a as [|x a IH]; intros [|y b] n k Hl H; cbn in *; try discriminate; [destruct H|].
+  destruct (str_eqb x y) eqn:E.
+  - destruct (IH b (S n) k ltac:(lia) H) as [H1 H2]. split; [lia|].
+    replace (k - n) with (S (k - S n)) by lia. exact H2.
+  - destruct H as [<-|H].
+    + split; [lia|]. rewrite Nat.sub_diag. cbn. intros ->. unfold str_eqb in E. destruct (list_eq_dec N.eq_dec y y); congruence.
+    + destruct (IH b (S n) k ltac:(lia) H) as [H1 H2]. split; [lia|].
+      replace (k - n) with (S (k - S n)) by lia. exact H2.
+Qed.
+(* a rule application whose changed-lines list is empty and that keeps the line count left every line as it was *)
+Theorem unchanged_lines_equal before after :
+  changed_lines before after = [] -> lines_of before [] = lines_of after [].
+Proof. apply diff_lines_nil. Qed.
+
+(* ---------------- C09 / C10: no violation, no change; identity edits, no change ---------------- *)
+Theorem run_no_violations {A} (l : list A) n : fold_left (fun l es => update l es) (repeat (@nil (edit A)) n) l = l.
+Proof. induction n; cbn; auto. Qed.
+
+Theorem identity_edits_no_change {A} (es : list (edit A)) l : wf 0 (length l) es ->
+  Forall (fun e => e_new e = slice l (e_start e) (e_stop e)) es -> update l es = l.
+Proof.
+  intros Hw Hf. symmetry. apply (update_congruence (@eq (list A))); auto.
+  - intros a a' b b' -> ->. reflexivity.
+  - apply Forall_forall. rewrite Forall_forall in Hf. intros e He. symmetry. now apply Hf.
+Qed.
